@@ -169,6 +169,82 @@ def r3b_one_transaction_per_operation(ctx):
         r.anchor_missing("database EventLog methods with a transaction site (found %d)" % n)
 
 
+E1_SCOPE = re.compile(r"^(sos_filesystem|sos_database|sos_backend|sos_server_storage|sos_client_storage|sos_vault|sos_reducers|sos_remote_sync|sos_sync|sos_archive|sos_external_files|sos_database_upgrader|sos_account|sos_login)$")
+E1_NOTIFY = re.compile(r"(mpsc|broadcast|oneshot|watch)::.*Sender.*::(send|try_send)$|SinkExt::send$")
+
+
+def _local_used(body, l):
+    for blk in body.blocks:
+        for st in blk["s"]:
+            if st.get("k") == "dead":
+                continue
+            if st.get("p") and cfg.place_local(st["p"]) == l:
+                return True
+            for o in st.get("ops", []) or []:
+                p_ = cfg.op_place(o)
+                if p_ and cfg.place_local(p_) == l:
+                    return True
+        t = blk.get("term") or {}
+        for o in t.get("args", []) or []:
+            p_ = cfg.op_place(o)
+            if p_ and cfg.place_local(p_) == l:
+                return True
+        if t.get("k") == "switch":
+            p_ = cfg.op_place(t["d"])
+            if p_ and cfg.place_local(p_) == l:
+                return True
+    return False
+
+
+def r6_no_discarded_results(ctx):
+    """Error discipline of the storage, sync and account layers: a `Result`
+    is never thrown away (`let _ = ..`, a bare `..;`, `.ok();`). A failed write,
+    flush, truncate or rollback that is ignored leaves memory and storage out of
+    step without anybody being told. The only tabled idiom is a best-effort
+    notification to a listener channel."""
+    ws = ctx.ws
+    r = ctx.rule("C13-R6", "no Result of the storage, sync and account layers is discarded (except best-effort listener notifications)",
+                 floor=3000, kind="K-error discipline: unused Result-typed temporaries over all bodies")
+    n = 0
+    nnotify = 0
+    counts = {}
+    for root, fn in sorted(ws.fns.items()):
+        if not E1_SCOPE.match(fn.crate or "") or fn.meta.get("exp"):
+            continue
+        for b in fn.bodies:
+            live = cfg.live_blocks(b)
+            defs = cfg.defs_of(b)
+            cands = []
+            for l, ty in enumerate(b.locals):
+                if l == 0 or l <= b.argc or not ty.startswith("core::result::Result<") or b.vars.get(str(l)):
+                    continue
+                ds = defs.get(l, [])
+                if ds and any(bi in live for bi, _s, _t in ds):
+                    cands.append((l, ds))
+            for i, t in idioms.real_calls(b, live):
+                if re.search(r"result::Result::<.*>::ok$", t.get("callee") or "") and t.get("dest") and "." not in t["dest"] \
+                        and cfg.place_local(t["dest"]) != 0 and not b.vars.get(t["dest"]):
+                    cands.append((cfg.place_local(t["dest"]), [(i, t, True)]))
+            for l, ds in cands:
+                n += 1
+                if _local_used(b, l):
+                    continue
+                org = idioms.origin_calls(b, str(l))
+                callees = sorted({(b.blocks[x]["term"].get("callee") or "") for x in org})
+                if callees and all(E1_NOTIFY.search(c) for c in callees):
+                    nnotify += 1
+                    continue
+                counts[root] = counts.get(root, 0) + 1
+                bi = ds[0][0]
+                r.violation("%s|discarded#%d" % (root, counts[root]), cfg.loc(b, bi),
+                            "the Result of %s is discarded: a failure here is silently ignored and the operation carries on as if it had succeeded" % (
+                                [idioms.last_seg(c) for c in callees] or "an expression"), work=1)
+    if n >= 3000:
+        r.ok("workspace|results-consumed", "-", "%d Result-typed temporaries examined; %d discarded ones are best-effort listener notifications; none other" % (n, nnotify), work=n)
+    else:
+        r.anchor_missing("Result-typed temporaries in the storage/sync/account crates (found %d)" % n)
+
+
 def r4_snapshot_before_destruction(ctx):
     ws = ctx.ws
     r = ctx.rule("C13-R4", "replace_all_events on files takes a snapshot before erasing and removes it only when verified",
@@ -234,3 +310,4 @@ def run(ctx):
     r3b_one_transaction_per_operation(ctx)
     r4_snapshot_before_destruction(ctx)
     r5_vault_before_event(ctx)
+    r6_no_discarded_results(ctx)
